@@ -42,6 +42,25 @@ fn element_pool(rng: &mut Rng) -> Vec<Tree> {
         };
         pool.push(x);
     }
+    // payload twins: a string made of exactly the bytes a number of the pool is stored as
+    // (65 is stored as `P A`), so that identity by payload alone confuses the two
+    if rng.chance(1, 3) {
+        let twins: Vec<Tree> = pool
+            .iter()
+            .filter_map(|t| if let Tree::Num(n) = t { Some(*n) } else { None })
+            .filter_map(|n| {
+                let mut b = Vec::new();
+                refcodec::encode_num(&n, &mut b);
+                String::from_utf8(b).ok().map(Tree::Str)
+            })
+            .collect();
+        pool.extend(twins);
+        let v = rng.below(0x60) as u64 + 0x20;
+        pool.push(Tree::Num(crate::tree::Num::U(v)));
+        pool.push(Tree::Str(format!("P{}", v as u8 as char)));
+        pool.push(Tree::Num(crate::tree::Num::I(-(v as i64))));
+        pool.push(Tree::Str(format!("@{}", (256 - v) as u8 as char)));
+    }
     pool
 }
 
@@ -182,6 +201,17 @@ pub fn run(ctx: &mut Ctx) {
         if i % 3 == 0 {
             let args = super::routes::plain_args(&a, &mut rng);
             mon.check(ctx, &a, &b, &args, &mut rng);
+        }
+        if i % 97 == 13 && !ctx.miri {
+            // more distinct elements than a small scan buffer holds, early ones repeated late
+            let n = 33 + rng.below(60);
+            let mut la: Vec<Tree> = (0..n).map(|k| Tree::Num(crate::tree::Num::U(k as u64))).collect();
+            for _ in 0..(2 + rng.below(5)) {
+                la.push(la[rng.below(n)].clone());
+            }
+            let lb: Vec<Tree> = (0..(33 + rng.below(40))).map(|_| la[rng.below(la.len())].clone()).collect();
+            check_pair(ctx, &Tree::Arr(la.clone()), &Tree::Arr(lb.clone()));
+            check_pair(ctx, &Tree::Arr(lb), &Tree::Arr(la));
         }
         if ctx.case_no % 2003 == 11 && !ctx.miri {
             let e = rng.pick(&pool).clone();
